@@ -80,6 +80,8 @@ def jobs_for(tier):
         ks = list(MAGS_T if thorough else MAGS_Q)
         if name == "shift_left_amount":
             ks += [1 << 20, 1 << 33]
+        if name == "mul_small_by_huge_chain":
+            ks = [1, 10]
         for k in ks:
             p = f(k)
             if p is None:
@@ -145,7 +147,7 @@ def run(chk):
             ops.append(fw.asm_op([("main.asm", f(k))]))
             what.append((name, k))
     for name, f in F.magnitude_families().items():
-        if name.startswith("incbin") or name == "iters_option":
+        if name.startswith("incbin") or name in ("iters_option", "mul_small_by_huge_chain"):
             continue
         # (only magnitudes whose answer is an error or a small output: the model builds its output bit by bit)
         for k in ([8] if name in ("repeated_squaring", "res_size", "align_size", "addr_value", "bankdef_outp", "bankdef_size_fill", "data_width_suffix") else [8, 64, 65, 100]):
